@@ -69,7 +69,10 @@ def gen_abstract(rng, nstmt=None, dup_outputs=False, includes=False, scoping=Fal
                 elif k == "deps":
                     binds.append(("deps", [("lit", rng.choice(["gcc", "msvc"]))]))
                 elif k == "pool":
-                    binds.append(("pool", [("lit", rng.choice(["p0", "console"]))]))
+                    if rng.random() < 0.5:
+                        binds.append(("pool", [("lit", rng.choice(["p0", "console"]))]))
+                    else:
+                        binds.append(("pool", rand_value(rng, varnames, rich=False)))   # e.g. pool = $jobpool, rebound per build
                 else:
                     binds.append((k, rand_value(rng, varnames + ["out"])))
             rules.append(name)
